@@ -26,6 +26,8 @@ Qed.
 Notation Br S ty i m A acc sa sc := (Gst false S ty ["["%char] i m A None 0 CNone acc sa sc).
 Notation Qt q S ty A acc sa sc := (Gst false S ty [qchar q] false None A None 0 CNone acc sa sc).
 Notation BQ q S ty i m A acc sa sc := (Gst false S ty [qchar q; "["%char] i m A None 0 CNone acc sa sc).
+Notation BrD d S ty i m A acc sa sc := (GstD d false S ty ["["%char] i m A None 0 CNone acc sa sc).
+Notation BQD d q S ty i m A acc sa sc := (GstD d false S ty [qchar q; "["%char] i m A None 0 CNone acc sa sc).
 Notation Kw S i k acc sa sc :=
   (Gst false S (Some TKeywordSearch) ["("%char; "["%char] i None "" (Some k) 0 CNone acc sa sc).
 
@@ -78,10 +80,11 @@ Lemma close_anchor strip sepc S i A acc sa sc :
   = Ok (Top (S ++ [(Some TAnchor, AStr acc)])%list None A "" sa sc).
 Proof. destruct sa, sc; reflexivity. Qed.
 
-Lemma close_search strip sepc S i m A acc sa sc :
-  step strip sepc (Br S (Some TSearch) i (Some m) A acc sa sc) "]"%char
-  = Ok (Top (S ++ [(Some TSearch, ASearch i m A (undemarcate acc))])%list None A "" sa sc).
-Proof. destruct sa, sc; unfold step; cbn -[undemarcate]; reflexivity. Qed.
+(* since the fix of F21 the term is undemarcated only when a demarcating quote opened it *)
+Lemma close_search strip sepc d S i m A acc sa sc :
+  step strip sepc (BrD d S (Some TSearch) i (Some m) A acc sa sc) "]"%char
+  = Ok (Top (S ++ [(Some TSearch, ASearch i m A (if d then undemarcate acc else acc))])%list None A "" sa sc).
+Proof. destruct d, sa, sc; unfold step; cbn -[undemarcate]; reflexivity. Qed.
 
 (* search operators; the attribute must have been read *)
 Lemma bang_bracket strip sepc S ty A acc sa sc :
@@ -114,9 +117,9 @@ Proof. destruct sa, sc; reflexivity. Qed.
 
 (* =~ d expr d ] *)
 Definition Rseek S i A sa sc : pst :=
-  mkpst S "" (Some TSearch) ["["%char] false i (Some MRegex) A None true false 0 CNone sc None sa 1.
+  mkpst S "" (Some TSearch) ["["%char] false i (Some MRegex) A None true false 0 CNone sc None sa 1 false.
 Definition Rcap d S i A acc sa sc : pst :=
-  mkpst S acc (Some TSearch) [d; "["%char] false i (Some MRegex) A None false true 0 CNone sc None sa 2.
+  mkpst S acc (Some TSearch) [d; "["%char] false i (Some MRegex) A None false true 0 CNone sc None sa 2 false.
 
 Lemma tilde_bracket strip sepc S i A sa sc :
   step strip sepc (Br S (Some TSearch) i (Some MEquals) A "" sa sc) "~"%char = Ok (Rseek S i A sa sc).
@@ -138,7 +141,7 @@ Qed.
 
 Lemma delim_close strip sepc S i A acc sa sc d rest :
   run strip sepc (Rcap d S i A acc sa sc) (String d (String "]"%char rest))
-  = run strip sepc (Top (S ++ [(Some TSearch, ASearch i MRegex A (undemarcate acc))])%list None A "" sa sc) rest.
+  = run strip sepc (Top (S ++ [(Some TSearch, ASearch i MRegex A acc)])%list None A "" sa sc) rest.
 Proof.
   cbn [run]. unfold step at 1. unfold Rcap. cbn -[undemarcate run step]. rewrite Ascii.eqb_refl.
   cbn -[undemarcate run step]. destruct sa, sc; unfold step at 1; cbn -[undemarcate run step]; reflexivity.
@@ -155,15 +158,19 @@ Lemma quote_close_top strip sepc q S ty A a r sa sc :
 Proof. destruct q, sa, sc; reflexivity. Qed.
 
 (* quotes inside [ ] *)
+(* a quote that opens the term of a search (method known, nothing accumulated) demarcates it *)
+Definition opens_term (m : option smethod) (acc : string) : bool :=
+  match m with Some _ => negb (nonempty acc) | None => false end.
+
 Lemma quote_open_br strip sepc q S ty i m A acc sa sc :
   step strip sepc (Br S ty i m A acc sa sc) (qchar q)
-  = Ok (BQ q S ty i m A (snoc acc (qchar q)) false false).
-Proof. destruct q, sa, sc; reflexivity. Qed.
+  = Ok (BQD (opens_term m acc) q S ty i m A (snoc acc (qchar q)) false false).
+Proof. destruct q, sa, sc, m, acc; reflexivity. Qed.
 
-Lemma quote_close_br strip sepc q S ty i m A acc sa sc :
-  step strip sepc (BQ q S ty i m A acc sa sc) (qchar q)
-  = Ok (Br S ty i m A (snoc acc (qchar q)) false false).
-Proof. destruct q, sa, sc; reflexivity. Qed.
+Lemma quote_close_br strip sepc d q S ty i m A acc sa sc :
+  step strip sepc (BQD d q S ty i m A acc sa sc) (qchar q)
+  = Ok (BrD d S ty i m A (snoc acc (qchar q)) false false).
+Proof. destruct d, q, sa, sc; reflexivity. Qed.
 
 (* keyword searches *)
 Lemma kw_open strip sepc S i k sa sc :
@@ -207,9 +214,20 @@ Proof.
     vm_compute in F; try discriminate F; vm_compute; reflexivity.
 Qed.
 
+(* the outermost open mark of a collector's stack is its own parenthesis (the
+   test of the F30 repair: no collector inside a [...] segment) *)
+Lemma bottom_of_parens n : bottom_of ("("%char :: repeat "("%char n) = Ok "("%char.
+Proof. induction n as [|n IH]; [reflexivity | exact IH]. Qed.
+
 Lemma coll_nest strip sepc S A op n acc sa sc :
   step strip sepc (Cst S A op n acc sa sc) "("%char = Ok (Cst S A op (Datatypes.S n) (snoc acc "("%char) false false).
-Proof. unfold Cst. destruct n as [|[|n]]; destruct sa, sc; vm_compute; reflexivity. Qed.
+Proof.
+  unfold Cst. destruct n as [|[|n]]; destruct sa, sc; try (vm_compute; reflexivity);
+    unfold step; cbn -[bottom_of];
+    change (bottom_of (_ :: _ :: _ :: repeat "("%char n))
+      with (bottom_of ("("%char :: repeat "("%char (Datatypes.S (Datatypes.S n))));
+    rewrite bottom_of_parens; reflexivity.
+Qed.
 
 Lemma coll_unnest strip sepc S A op n acc sa sc :
   step strip sepc (Cst S A op (Datatypes.S n) acc sa sc) ")"%char = Ok (Cst S A op n (snoc acc ")"%char) false false).
